@@ -217,10 +217,17 @@ func H_C17_shape(fs, w int) {
 	if flags&(POptParamAmpSepF|POptTokURIHdrF) != 0 {
 		sep = '&'
 	}
+	term := byte(0)
+	if flags&(POptTokQmTermF|POptTokURIParamF) != 0 {
+		term = '?'
+	} else if flags&POptTokCommaTermF != 0 {
+		term = ','
+	}
 	tokc := func(c byte) bool {
-		// the specials '&' '?' are separators / terminators in some modes and
-		// are exercised by H_C17_tok; here: plain name / value characters
-		return refTokChar(c, uriParam) && c != '&' && c != '?'
+		// every byte of the documented set of this mode ('?' outside
+		// URI-parameter mode, '&' inside it) unless it is this mode's
+		// separator or terminator
+		return refTokChar(c, uriParam) && c != sep && c != term
 	}
 	var b []byte
 	n1s := len(b)
